@@ -2,6 +2,7 @@ import Ruint.Lemmas.FloatTryG
 import Ruint.Lemmas.FloatMsb
 import Ruint.Lemmas.FloatOld
 import Ruint.Lemmas.FloatOrd
+import Ruint.Lemmas.FloatQ
 
 /-!
 # C18 — float conversions round predictably and classify special values
@@ -90,6 +91,11 @@ theorem floorHalf_meaning (m s : ℕ) (hs : 1 ≤ s) :
   rw [if_neg (by omega)]
   have : (- -(s : ℤ)).toNat = s := by omega
   rw [this, pow_succ, Nat.mul_comm (2 ^ s) 2]
+
+/-- over the rationals: `floorHalf m e = ⌊m·2^e + 1/2⌋` — the `floor(f + 1/2)` of the property statement,
+    computed exactly. -/
+theorem floorHalf_is_floor (m : ℕ) (e : ℤ) :
+    (floorHalf m e : ℤ) = ⌊(m : ℚ) * (2 : ℚ) ^ e + 1 / 2⌋ := floorHalf_eq_floor m e
 
 /-- `try_from(f32)` obeys the same specification (the widening to `f64` is exact). -/
 theorem try_from_f32_spec (bits x m : ℕ) (neg : Bool) (e : ℤ)
